@@ -351,23 +351,52 @@ def hint_from_trace(trace, names, verb, prefix="d/"):
 class History:
     """Builds the Coq text that replays one case in the model."""
 
-    def __init__(self, cid, names):
+    def __init__(self, cid, names, group=None, parent=None):
         self.cid = cid
         self.names = names
+        self.group = group or cid
         self.lines = []
         self.checks = []       # (name of N-valued definition, description)
-        self.state = f"a_{cid}_0"
-        self.lines.append(f"Definition {self.state} : Store.arch := Store.arch0.")
         self.k = 0
         self.src_tree = None
         self.walk = None
+        self.base_name = None
+        self.base_items = None
+        if parent is None:
+            self.state = f"a_{cid}_0"
+            self.lines.append(f"Definition {self.state} : Store.arch := Store.arch0.")
+        else:
+            self.state = parent.state
+            self.src_tree = parent.src_tree
+            self.walk = parent.walk
+            self.base_name = parent.base_name
+            self.base_items = parent.base_items
+
+    def fork(self, cid):
+        return History(cid, self.names, group=self.group, parent=self)
+
+    def set_base(self, trace):
+        """remember a reference trace; later traces are written as a prefix of it plus a suffix"""
+        self.names.add_trace(trace)
+        self.base_items = [t for t in g_trace(trace, self.names) if t is not None]
+        self.base_name = f"base_{self.cid}_{self.k}"
+        self.lines.append(f"Definition {self.base_name} : list (op * reply) := {gallina_list(self.base_items)}.")
+
+    def g_impl_trace(self, tr):
+        if self.base_items:
+            k = 0
+            while k < len(tr) and k < len(self.base_items) and tr[k] == self.base_items[k]:
+                k += 1
+            if k > 3:
+                return f"(firstn {k} {self.base_name} ++ {gallina_list(tr[k:])})"
+        return gallina_list(tr)
 
     def set_state_from_arch(self, arch):
         self.k += 1
         self.state = f"a_{self.cid}_{self.k}"
         self.lines.append(f"Definition {self.state} : Store.arch := {g_arch(arch, self.names)}.")
 
-    def add(self, step, res, rules=None, mut_only=False):
+    def add(self, step, res, rules=None, mode=0):
         """Model one executed step.  rules: list of (trace item, nth, fault)."""
         op = step["op"]
         if op == "mktree" and step.get("path", "src") == "src":
@@ -413,7 +442,7 @@ class History:
         s = f"s_{self.cid}_{self.k}"
         self.lines.append(f"Definition {s} := run_rules pre {prog} {self.state} {rules_g} [].")
         name = f"c_{self.cid}_{self.k}_{op}"
-        self.lines.append(f"Definition {name} : N := check_run {summ} {s} {gallina_list(tr)} {gallina_bool(mut_only)} "
+        self.lines.append(f"Definition {name} : N := check_run {summ} {s} {self.g_impl_trace(tr)} {mode if mode else (2 if any(is_group_item(r[0]) for r in (rules or [])) else 0)} "
                           f"{gallina_list([str(x) for x in impl_out(res, kind)])}.")
         self.checks.append((name, f"step {self.k} ({op})"))
         self.state = f"a_{self.cid}_{self.k}"
@@ -425,23 +454,39 @@ class History:
             self.checks.append((name2, f"entries listed at step {self.k}"))
 
 
-def evaluate(ctx, tag, histories, names_list, shards=8, timeout=3000):
-    """histories: list of History.  Returns {cid: [(description, code)]} (None if the model run failed)."""
+def evaluate(ctx, tag, histories, names_list=None, shards=8, timeout=3000):
+    """histories: list of History (forks must follow their parent).  Histories of one group share
+    the sub-directory table and stay in one file.  Returns {cid: [(description, code)]} (None if
+    the model run failed)."""
     import concurrent.futures
     from . import common
-    per = (len(histories) + shards - 1) // shards if histories else 1
+    groups = []
+    for h in histories:
+        if groups and groups[-1][0] == h.group:
+            groups[-1][1].append(h)
+        else:
+            groups.append((h.group, [h]))
+    weights = [sum(len(x.lines) for x in g[1]) for g in groups]
+    bins = [[] for _ in range(shards)]
+    load = [0] * shards
+    for g, w in sorted(zip(groups, weights), key=lambda t: -t[1]):
+        i = load.index(min(load))
+        bins[i].append(g)
+        load[i] += w
     jobs = []
-    for s in range(shards):
-        part = histories[s * per:(s + 1) * per]
+    for s, part in enumerate(bins):
         if not part:
             continue
         body = [HEADER]
-        for h in part:
-            body.append(f"Definition pre_{h.cid} := pre_of {h.names.pre_table()}.")
-            body.append("\n".join(l.replace(" pre ", f" pre_{h.cid} ") for l in h.lines))
-        allchecks = [name for h in part for name, _ in h.checks]
+        hs = []
+        for gid, members in part:
+            body.append(f"Definition pre_{gid} := pre_of {members[0].names.pre_table()}.")
+            for h in members:
+                body.append("\n".join(l.replace(" pre ", f" pre_{gid} ") for l in h.lines))
+                hs.append(h)
+        allchecks = [name for h in hs for name, _ in h.checks]
         body.append("Eval vm_compute in " + gallina_list(allchecks) + ".")
-        jobs.append((s, part, "\n".join(body)))
+        jobs.append((s, hs, "\n".join(body)))
     out = {}
     with concurrent.futures.ThreadPoolExecutor(max_workers=16) as ex:
         futs = {ex.submit(common.coq_eval, f"{tag}_{s}", body, timeout): (s, part) for s, part, body in jobs}
